@@ -19,6 +19,7 @@ import socket
 import logging
 import argparse
 from pathlib import Path
+from ipaddress import ip_address
 from importlib import resources
 from importlib.metadata import version
 from selectors import DefaultSelector, EVENT_READ
@@ -63,8 +64,19 @@ class BootHandler(TFTPBaseHandler):
             board = self.server.boards[serial]
         except (ValueError, KeyError):
             raise FileNotFoundError(filename)
-        if board.ip is not None and self.client_address[0] != board.ip:
-            raise PermissionError(lang._('IP does not match'))
+        if board.ip is not None:
+            # client_address[0] is a string; board.ip is an ip_address object
+            # (which never compares equal to a string). A client reaching an
+            # IPv6 socket over IPv4 appears as an IPv4-mapped IPv6 address
+            try:
+                address = ip_address(self.client_address[0])
+            except ValueError:
+                address = None
+            else:
+                if address.version == 6 and address.ipv4_mapped is not None:
+                    address = address.ipv4_mapped
+            if address != board.ip:
+                raise PermissionError(lang._('IP does not match'))
         boot_filename = Path('').joinpath(*p.parts[1:])
         try:
             image, fs = self.server.images[serial]
